@@ -256,7 +256,13 @@ func (s *SFTPStore) Prune(ctx context.Context, ids map[ChunkID]struct{}) error {
 		// See if the chunk we're looking at is in the list we want to keep, if not
 		// remove it.
 		if _, ok := ids[id]; !ok {
-			if err = s.RemoveChunk(id); err != nil {
+			// Use the connection this walk holds. Taking another one from the
+			// pool would block forever if this is the only one.
+			name := c.nameFromID(id)
+			if _, err := c.client.Stat(name); err != nil {
+				return ChunkMissing{id}
+			}
+			if err = c.client.Remove(name); err != nil {
 				return err
 			}
 		}
